@@ -13,7 +13,7 @@ import (
 func init() {
 	register(&propInfo{
 		ID:          "C15",
-		Explanation: "Origin, must-call and site analysis of what happens to server-side work when a connection ends: (R15.1) the context handed to every handler derives, through cancellation-preserving steps only, from the per-connection context whose cancel function is deferred in the connection loop; every loop exit also runs the in-flight failer, which invokes the cancel function of every entry of the handling table; (R15.2) every function that can serve as a writer provider invokes its callback on every path (a response written for a dead connection must not park its handler goroutine); (R15.3) the forwarding goroutine's select set contains the exit signal and returns on it, and the channel registrar's hand-over is a select alternative to the exit signal; (R15.4) channels on which helper goroutines report back to the loop have room for a report that arrives after the loop has exited; (R15.5) the loop's deferred cleanup cannot block (the ping stopper does not wait for anything), so the cancellations are actually reached; (R15.6) exit cleanup is registered before every return of the loop. R15.3 also decides, under the situation 'exit case chosen with ok=false' (comparisons of the chosen index with constants decided, short-circuit phis evaluated over feasible edges), that the forwarder returns before its next select.",
+		Explanation: "Origin, must-call and site analysis of what happens to server-side work when a connection ends: (R15.1) the context handed to every handler derives, through cancellation-preserving steps only, from the per-connection context whose cancel function is deferred in the connection loop; every loop exit also runs the in-flight failer, which invokes the cancel function of every entry of the handling table; (R15.2) every function that can serve as a writer provider invokes its callback on every path (a response written for a dead connection must not park its handler goroutine); (R15.3) the forwarding goroutine's select set contains the exit signal and returns on it, and the channel registrar's hand-over is a select alternative to the exit signal; (R15.4) channels on which helper goroutines report back to the loop have room for a report that arrives after the loop has exited; (R15.5) the loop's deferred cleanup cannot block (the ping stopper does not wait for anything), so the cancellations are actually reached; (R15.6) exit cleanup is registered before every return of the loop. R15.3 also decides, under the situation 'exit case chosen with ok=false' (comparisons of the chosen index with constants decided, short-circuit phis evaluated over feasible edges), that the forwarder returns before its next select. R15.3 also: no goroutine is started on the forwarder's exit path; R15.5 also: no deferred call of the loop waits on a WaitGroup.",
 		NotDecided:  "Goroutine counts at run time, handlers that ignore their context, a socket reader parked on its bare hand-over when the loop exits at the instant a frame header arrives (observation recorded in DESIGN.md).",
 		Assumptions: []string{"writer providers are the functions that flow into a parameter of type func(func(io.Writer)) of the dispatcher / lazy-writer helper"},
 		Run:         runC15,
@@ -188,6 +188,36 @@ func runC15(c *Ctx) {
 				}
 			}
 		})
+		if !exitWatched {
+			// the case list may be built by a helper that is handed reflect.ValueOf(exit signal)
+			var exitVals []ssa.Value
+			allInstrs(w.OutChans, func(in ssa.Instruction) {
+				if ci, ok := in.(*ssa.Call); ok && calleeName(ci) == "reflect.ValueOf" && isLoadOf(stripConv(ci.Common().Args[0]), r.FExiting) {
+					exitVals = append(exitVals, ci)
+				}
+			})
+			isExitVal := func(v ssa.Value) bool {
+				for _, e := range exitVals {
+					if e == v {
+						return true
+					}
+				}
+				return false
+			}
+			for _, g := range c.region(w.OutChans) {
+				allInstrsRaw(g, func(in ssa.Instruction) {
+					st, ok := in.(*ssa.Store)
+					if !ok || len(exitVals) == 0 {
+						return
+					}
+					if fa, ok := st.Addr.(*ssa.FieldAddr); ok && isNamed(fa.X.Type(), "reflect", "SelectCase") && isNamed(st.Val.Type(), "reflect", "Value") {
+						if c.dependsOn(st.Val, isExitVal, 0, map[ssa.Value]bool{}) {
+							exitWatched = true
+						}
+					}
+				})
+			}
+		}
 		c.check(exitWatched, "R15.3", construct, p.pos(w.OutChans.Pos()), "exit signal is one of the select cases", "the forwarding goroutine does not watch the connection's exit signal: it lives on after the connection ended")
 		// it must be able to return (a branch of the chosen-index switch returns without further select)
 		hasRet := false
